@@ -29,7 +29,7 @@ func init() { registry["C09"] = runC09 }
 type c09Signer struct {
 	family string // sm2 | rsa | p256 | p384
 	key    crypto.Signer
-	other  crypto.Signer   // a fresh key of the same type
+	other  crypto.Signer      // a fresh key of the same type
 	cert   *gx509.Certificate // issuer certificate as parsed by gmsm
 	ocert  *gx509.Certificate // certificate for the other key, same subject
 	algs   []gx509.SignatureAlgorithm
